@@ -378,7 +378,31 @@ def check_hard_break_decorator(ctx: Ctx) -> None:
             if len(pdefs) == 1 and pdefs[0].kind == "assign" and isinstance(pdefs[0].value, (ast.ListComp, ast.GeneratorExp)):
                 parts_e = pdefs[0].value
         got: dict[bool, set] = {True: set(), False: set()}
-        if isinstance(parts_e, (ast.ListComp, ast.GeneratorExp)) and len(parts_e.generators) == 1:
+        pieces_ = None
+        if isinstance(parts_e, ast.Name):
+            # parts = [wrap(first)]; parts += [wrap(s) for s in rest]: a list put together from element expressions without any
+            # per-position distinction - every part has the same shape, the separator alone carries the hard break
+            ds_ = [d for d in flow.defs if d.var == parts_e.id]
+            elems_: list[ast.AST] = []
+            okp = bool(ds_)
+            for d in ds_:
+                v_ = d.value if d.kind == "assign" else (d.node.ast.value if d.kind == "aug" and isinstance(d.node.ast, ast.AugAssign) else None)
+                if isinstance(v_, ast.List):
+                    elems_ += list(v_.elts)
+                elif isinstance(v_, (ast.ListComp, ast.GeneratorExp)) and len(v_.generators) == 1 and not v_.generators[0].ifs:
+                    elems_.append(v_.elt)
+                else:
+                    okp = False
+            if okp and elems_ and any(d.kind == "aug" for d in ds_):
+                pieces_ = elems_
+        if pieces_ is not None:
+            dec = Decider(prog, lambda leaf, _al: None, value_leaf=value_leaf)
+            vals_: set = set()
+            for e_ in pieces_:
+                vals_ |= set(dec.ev(w, e_, {}, {}, frozenset(), 0))
+            got[True] = set(vals_)
+            got[False] = set(vals_)
+        elif isinstance(parts_e, (ast.ListComp, ast.GeneratorExp)) and len(parts_e.generators) == 1:
             facts = LoopFacts.of_comprehension(parts_e.generators[0])
             for last in (True, False):
                 la = facts.last_atom(last)
